@@ -49,7 +49,7 @@ def scalar_arms(rep, be):
             continue
         n_arm += 1
         try:
-            tmpl = convsem.emit_template(f, mine[0])
+            tmpl = convsem.emit_template(f, mine[0], ins)
             v = convsem.check_scalar(be, ins, tmpl, helpers)
             n_eval += 1
         except Unknown as e:
@@ -58,7 +58,9 @@ def scalar_arms(rep, be):
                f"`{tmpl.show()}`: {v.detail}" if v.ok else v.detail, f.loc(mine[0].node))
     # nothing else in emit dispatches on a scalar instruction (an `if let Instruction::X = inst {..; return}` placed
     # before the match would bypass the arm that R14.2 evaluates)
-    in_match = {id(n) for a in arms for n in synq.walk(a.pat)}
+    # patterns inside the match itself are fine: arm heads are R14.1's subject, and a nested `match inst {..}` in an
+    # arm body is resolved per alternative by the extractor (R14.2 fails closed if it cannot)
+    in_match = {id(n) for n in synq.walk(m)}
     stray = []
     for n in synq.walk(f.body):
         nm = n.get("path") if n.get("k") in ("p_path", "p_tuple_struct", "p_struct") else n.get("name") if n.get("k") == "p_ident" else None
